@@ -73,6 +73,11 @@ class DataFrame(Entity, DataSet):
         # so that rows can still be appended afterwards
         self._h5group.create_dataset("data", (len(farr),), dt, compr)
         self.write_direct(farr)
+        units = self._h5group.get_attr("units")
+        if units is not None:
+            # the new column has no unit (stored as empty string)
+            units_arr = np.array(list(units) + [""], util.vlen_str_dtype)
+            self._h5group.set_attr("units", units_arr)
 
     def append_rows(self, data):
         """
